@@ -49,12 +49,13 @@ P = {'id': 'C13',
              'integers, bool, String, Option, Box, context-free Rc/Arc, Vec / sets / maps, arrays, tuples, Result, the metadata form, arbitrarily nested), '
              'versioned records of versioning.rs (serialize_with_manager / deserialize_with_manager, serialize_versioned / deserialize_versioned, '
              'VersionedSerializer::deserialize_from_bytes with its VersionConfig checks), StreamBufferedWriter and ZeroCopyWriter as state machines over a '
-             'short-write inner writer, the preset readers performance_optimized / low_latency / ZeroCopyReader::new',
+             'short-write inner writer, RangeWriter as a transducer to inner writes (with seeks), a buffered reader stacked on a RangeReader, '
+             'the preset readers performance_optimized / low_latency / ZeroCopyReader::new',
              'spec-only (oracle on the real code, no mechanism model): every DataInput/DataOutput back end pairing (Vec, std::io writer/reader, file, append, '
              'mmap output, MmapDataInput, MemoryMappedInput, buffered / zero-copy / range wrappers), tuples up to 12, arrays, Result, HashMap/HashSet/BTreeMap/BTreeSet, '
              'nested collections (as DataInput/DataOutput back ends; their layouts are modelled), ComplexTypeSerializer configurations and batches, Weak pointers and shared-pointer contexts, '
-             'VersionProxy ranges, migrations, bulk endian conversion, endianness magic, MmapZeroCopyReader, MultiRangeReader, readers stacked on readers, '
-             'RangeWriter, seeks on writers, ZeroCopyBuffer on its own, MemoryMappedOutput; second pass (design/C13.md, "Oracle breadth"): preset constructors and configurations, the strategy chooser, '
+             'VersionProxy ranges, migrations, bulk endian conversion, endianness magic, MmapZeroCopyReader, MultiRangeReader, a RangeReader stacked on a buffered reader, '
+             'seeks on the buffered writer, ZeroCopyBuffer on its own, MemoryMappedOutput; second pass (design/C13.md, "Oracle breadth"): preset constructors and configurations, the strategy chooser, '
              'sequences and collections of up to 70 000 elements and inputs of up to 8.6 MB named by (kind, n, seed), VectoredIO, UTF-8 / CRC32C of buffered bytes, '
              'ZeroCopyBuffer, seekable buffered / range / memory-mapped writers, MultiRangeReader range management, context reuse, cross-version records and migrations',
              ],
@@ -73,8 +74,9 @@ P = {'id': 'C13',
                'byte strings, versioned fields, Version packing (law + refutation), delta law outside the recorded finding class, refutation witnesses for '
                'the recorded findings, "the bytes handed out concatenate to the inner stream (of the range)" for the buffered, the ranged and the zero-copy reader, '
                'the round-trip law for EVERY type code of the serialisable-type universe (one induction on the code), versioned records for every schema and every '
-               '(writer version, reading version) pair incl. the VersionedSerializer acceptance logic, and "destination ++ buffer = accepted bytes" for every history of '
-               'the buffered and the zero-copy writer. The '
+               '(writer version, reading version) pair incl. the VersionedSerializer acceptance logic, "destination ++ buffer = accepted bytes" for every history of '
+               'the buffered and the zero-copy writer, confinement of the range writer under every history of writes and seeks, and "a RangeReader over a cursor reads '
+               'like a cursor over the range slice". The '
                'model is tied to the compiled code on every run by evaluating thousands of generated cases (values, item scripts, reader histories) in Coq and '
                'comparing with what the implementation returned; a direct oracle (round trip, exact bytes consumed, concatenation, reader = reference slice '
                'under arbitrary read-size histories) runs on the implementation over every back end the property names.',
